@@ -354,7 +354,10 @@ def run_property(pid, units, validate_ops, selftests, bounds, assumptions, uncov
     rep.absorb(results)
     for name, r in sorted(results.items()):
         if r.get('cex'):
-            if r['cex']['case'].get('kind') == 'pair':
+            if r['cex'].get('sharing'):
+                import c13
+                c13.replay_sharing(rep, pid, name, r['cex'])
+            elif r['cex']['case'].get('kind') == 'pair':
                 replay_pair(rep, pid, name, r['cex'])
             elif r['cex']['case'].get('kind') == 'hash2env':
                 case = r['cex']['case']
